@@ -8,6 +8,7 @@ import (
 	"fmt"
 	"go/ast"
 	"go/constant"
+	"go/parser"
 	"go/types"
 	"os"
 	"os/exec"
@@ -89,6 +90,8 @@ type GenProgram struct {
 	Ast     bool
 	Inline  bool
 	Switch  bool
+	lemmasDone  bool
+	LemmaFailed []string
 }
 
 // Generate runs peg on the grammar and loads the generated file as a unit.
@@ -142,7 +145,11 @@ func Generate(name, grammar string, opts []string) (*GenProgram, error) {
 		return nil, err
 	}
 	gp.Unit = u
-	if err := u.CS.ParseFile(filepath.Join(repoDir, "tree", "contracts_tmpl_verif.go")); err != nil {
+	cfile := "contracts_tmpl_verif.go"
+	if !gp.Ast {
+		cfile = "contracts_tmpl_noast_verif.go"
+	}
+	if err := u.CS.ParseFile(filepath.Join(repoDir, "tree", cfile)); err != nil {
 		return nil, err
 	}
 	// rule constants of the generated file
@@ -183,8 +190,31 @@ func (gp *GenProgram) setupSpec() {
 	decl("AS", "bool")
 	decl("upd", "DT_token")
 	decl("snoc", "TSeq")
-	decl("abs", "TSeq")
+	decl("tabs", "TSeq")
 	decl("runeAtC", "int")
+	decl("TXT", "Str")
+	decl("LOG", "TLog")
+	decl("snocL", "TLog")
+	if !gp.Ast {
+		u.ExtraCells["alog"] = "TLog"
+		// `text` is declared by the template only when a capture is reachable; otherwise it is a ghost
+		hasText := false
+		if fi := u.Funcs[gp.structName()+".Init"]; fi != nil {
+			ast.Inspect(fi.Body, func(n ast.Node) bool {
+				if vs, ok := n.(*ast.ValueSpec); ok {
+					for _, nm := range vs.Names {
+						if nm.Name == "text" {
+							hasText = true
+						}
+					}
+				}
+				return true
+			})
+		}
+		if !hasText {
+			u.ExtraCells["text"] = SStr
+		}
+	}
 	for i := range gp.Spec.Preds {
 		decl(fmt.Sprintf("P_%d", i), "bool")
 	}
@@ -194,11 +224,15 @@ func (gp *GenProgram) setupSpec() {
 		decl(fmt.Sprintf("end_%d", n.k), "int")
 		decl(fmt.Sprintf("app_%d", n.k), "TSeq")
 		decl(fmt.Sprintf("mx_%d", n.k), "DT_token")
+		decl(fmt.Sprintf("txt_%d", n.k), "Str")
+		decl(fmt.Sprintf("log_%d", n.k), "TLog")
 		if n.TypeName == "Star" || n.TypeName == "Plus" {
 			decl(fmt.Sprintf("E_%d", n.k), "int")
 			decl(fmt.Sprintf("A_%d", n.k), "TSeq")
 			decl(fmt.Sprintf("M_%d", n.k), "DT_token")
 			decl(fmt.Sprintf("trig_%d", n.k), "bool")
+			decl(fmt.Sprintf("X_%d", n.k), "Str")
+			decl(fmt.Sprintf("G_%d", n.k), "TLog")
 		}
 		if n.TypeName == "Range" {
 			return
@@ -247,8 +281,8 @@ func (gp *GenProgram) setupSpec() {
 			if fc := u.CS.Funcs[key]; fc != nil {
 				var keep []*Clause
 				for _, e := range fc.Ensures {
-					if strings.Contains(e.Tag, "C11") {
-						continue
+					if strings.Contains(e.Tag, "C11") || strings.Contains(e.Text, "TXT(") || strings.Contains(e.Text, "LOG(") {
+						continue // (no AST) text and the action log of attempts that an unordered choice skips are not promised either
 					}
 					keep = append(keep, e)
 				}
@@ -256,6 +290,8 @@ func (gp *GenProgram) setupSpec() {
 			}
 		}
 	}
+	u.OpaqueExternals = true
+	u.SkipSMT = true
 	u.Provider = gp.provider
 	u.NoSplit = map[string]bool{"RT": true, "inputOK": true}
 }
@@ -306,6 +342,18 @@ func (gp *GenProgram) provider(fv *FV, call *ast.CallExpr) *CalleeSpec {
 	return &CalleeSpec{Key: "Init.$rule", FC: fc, ScopePos: pos, Results: []types.Type{types.Typ[types.Bool]}, ExtraEnv: map[string]TV{"r": {T: idx.T, Ty: tInt, S: SInt}}}
 }
 
+// lemmaAxioms: proved progress/first-set lemmas, used by the proofs of -switch parsers only.
+func (gp *GenProgram) lemmaAxioms(pr *PRule) string {
+	if !gp.Switch {
+		return ""
+	}
+	if !gp.lemmasDone {
+		gp.lemmasDone = true
+		gp.LemmaFailed = gp.Spec.ProveLemmas(gp.Unit.preludeText())
+	}
+	return gp.Spec.LemmaAxioms("", 0) + gp.Spec.starAxioms(pr, 0)
+}
+
 // closureContract builds the contract of the closure of rule r: the generic rule contract plus the
 // defining equations of r at the entry state and the loop invariants of its repetitions.
 func (gp *GenProgram) closureContract(r *PRule, inlined func(string) *PRule) (*FuncContract, error) {
@@ -319,6 +367,11 @@ func (gp *GenProgram) closureContract(r *PRule, inlined func(string) *PRule) (*F
 	tok := fmt.Sprintf("mk(token, r, position, end_%d(position))", k)
 	rows := []string{
 		fmt.Sprintf("OK(r, position) == ok_%d(position) && END(r, position) == end_%d(position)", k, k),
+	}
+	if !gp.Ast {
+		rows = append(rows,
+			fmt.Sprintf("TXT(r, position, text) == txt_%d(position, text)", k),
+			fmt.Sprintf("LOG(r, position, alog, text) == log_%d(position, alog, text)", k))
 	}
 	if gp.Ast {
 		rows = append(rows,
@@ -357,6 +410,42 @@ func (gp *GenProgram) closureContract(r *PRule, inlined func(string) *PRule) (*F
 		}
 		fc.Requires = append(fc.Requires, &Clause{Name: fmt.Sprintf("pred[%d]", p.ID), Text: txt, Expr: e})
 	}
+	// inlined actions of a -noast parser: ghost log entry after the first statement of the action
+	if !gp.Ast {
+		seenTxt := map[string]bool{}
+		var acts func(n *PNode, top bool) error
+		acts = func(n *PNode, top bool) error {
+			if n.TypeName == "Action" {
+				if _, has := gp.Unit.Funcs[fmt.Sprintf("Init.$rules%d", gp.Consts[fmt.Sprintf("Action%d", n.ID)])]; !has {
+					first, err := firstStmtText(n.Str)
+					if err != nil {
+						return err
+					}
+					if seenTxt[first] {
+						return fmt.Errorf("two inlined actions begin with the same statement %q: ghost log hook would be ambiguous", first)
+					}
+					seenTxt[first] = true
+					fc.Ghosts = append(fc.Ghosts, gp.logGhost(n.ID, "", first))
+				}
+			}
+			if n.TypeName == "Name" {
+				if ir := inlined(n.Str); ir != nil {
+					if err := acts(ir.Body, false); err != nil {
+						return err
+					}
+				}
+			}
+			for _, c := range n.Kids {
+				if err := acts(c, false); err != nil {
+					return err
+				}
+			}
+			return nil
+		}
+		if err := acts(r.Body, true); err != nil {
+			return nil, err
+		}
+	}
 	// loop invariants
 	var stars []*PNode
 	gp.Spec.starsInEmissionOrder(r.Body, inlined, &stars)
@@ -364,6 +453,25 @@ func (gp *GenProgram) closureContract(r *PRule, inlined func(string) *PRule) (*F
 		fc.LoopInv[i] = gp.starInvariant(s, i)
 	}
 	return fc, nil
+}
+
+func (gp *GenProgram) logGhost(k int, at, after string) *GhostStmt {
+	l, _ := parseExpr("alog")
+	rh, _ := parseExpr(fmt.Sprintf("snocL(alog, %d, text)", k))
+	return &GhostStmt{At: at, After: after, LHS: l, RHS: rh, Text: fmt.Sprintf("alog = snocL(alog, %d, text)", k)}
+}
+
+// firstStmtText: normalised text of the first statement of an action body.
+func firstStmtText(action string) (string, error) {
+	e, err := parser.ParseExpr("func(){\n" + action + "\n}")
+	if err != nil {
+		return "", fmt.Errorf("action %q does not parse: %v", action, err)
+	}
+	fl := e.(*ast.FuncLit)
+	if len(fl.Body.List) == 0 {
+		return "", fmt.Errorf("empty action: no statement to attach the ghost log entry to")
+	}
+	return exprString(nil, fl.Body.List[0]), nil
 }
 
 func (gp *GenProgram) starInvariant(s *PNode, ord int) []*Clause {
@@ -379,6 +487,11 @@ func (gp *GenProgram) starInvariant(s *PNode, ord int) []*Clause {
 			[2]string{fmt.Sprintf("A_%d(position, live()) == A_%d(entry(position), entry(live()))", k, k), "C03"},
 			[2]string{fmt.Sprintf("M_%d(position, maxToken) == M_%d(entry(position), entry(maxToken))", k, k), "C11"}, // dropped under -switch below
 			[2]string{"forall(j, imp(j <= entry(tokenIndex), absAt(j) == entry(absAt(j))))", "C03"})
+	}
+	if !gp.Ast && !gp.Switch {
+		texts = append(texts,
+			[2]string{fmt.Sprintf("X_%d(position, text) == X_%d(entry(position), entry(text))", k, k), "C07"},
+			[2]string{fmt.Sprintf("G_%d(position, alog, text) == G_%d(entry(position), entry(alog), entry(text))", k, k), "C07"})
 	}
 	var out []*Clause
 	for i, tt := range texts {
@@ -445,6 +558,17 @@ func (gp *GenProgram) verifyClosures(r *Run, only map[string]bool) {
 			fc := u.CS.Funcs["Init.$rule"]
 			cp := *fc
 			cp.LoopInv = map[int][]*Clause{}
+			if !gp.Ast {
+				// the closure of rule ActionK runs the action: ghost log entry (K, current text)
+				for nm, cc := range gp.Consts {
+					var kk int
+					if cc == c && strings.HasPrefix(nm, "Action") {
+						if _, err := fmt.Sscanf(nm, "Action%d", &kk); err == nil {
+							cp.Ghosts = append(cp.Ghosts, gp.logGhost(kk, "entry", ""))
+						}
+					}
+				}
+			}
 			gp.runClosure(r, key, &cp, c, fname, "")
 			continue
 		}
@@ -475,17 +599,7 @@ func (gp *GenProgram) verifyClosures(r *Run, only map[string]bool) {
 			}
 			add(pr.Body)
 		}
-		gp.runClosure(r, key, fc, c, fname, extra+gp.Spec.FirstAxioms(""))
-	}
-	// spec-level lemmas: OK(r,p) => buf[p] in FIRST(r), one query per rule
-	for _, pr := range gp.Spec.Rules {
-		if !gp.Spec.hasFirstLemma(pr) || (only != nil && !only[pr.Name]) {
-			continue
-		}
-		ob := &Obligation{Name: fmt.Sprintf("%s/spec#lemma[first.%s]", u.Name, pr.Name), Kind: "lemma", Fn: "spec", Unit: u.Name, Props: "C02",
-			Detail: "OK(" + pr.Name + ",p) implies that the rune at p is in the first set pegspec computed for " + pr.Name, Goal: "first-set lemma", PC: "true"}
-		ob.Query = gp.Spec.FirstLemmaQuery(pr, u.preludeText())
-		r.Obls = append(r.Obls, ob)
+		gp.runClosure(r, key, fc, c, fname, extra+gp.lemmaAxioms(pr))
 	}
 	r.Programs++
 	for a := range u.Assumptions {
